@@ -32,7 +32,8 @@ SCRIPTS = {
     "s4": ["SET x = 1;", "CREATE SCHEMA sc;", "CREATE TABLE sc.k (", "  v int CHECK (v > 0),", "  w int", ");", "CREATE DOMAIN sc.d AS varchar(3);"],
 }
 TEXTS = ["note", "a -- b", "---- sec ----", "create table x (y int);", "a, b (c) ; d", "CREATE ALTER DROP", "select * from t where a = 1", "",
-         "ALTER", "x ; y ;", "(", "GO", "see note (1", "k; drop table t9; create table t9 (z int);", "later) ok"]
+         "ALTER", "x ; y ;", "(", "GO", "see note (1", "k; drop table t9; create table t9 (z int);", "later) ok",
+         "the customer's data", "it's (a, b), isn't it"]
 MARKED_TEXTS = ["/* -- x */", "a /* b", "x */ y", "# z", "-- /* x", "a /* b */"]
 WHOLE = {"--": lambda t: ["-- %s" % t], "--nosp": lambda t: ["--%s" % t], "#": lambda t: ["# %s" % t], "b1": lambda t: ["/* %s */" % t],
          "b1nosp": lambda t: ["/*%s*/" % t], "b2": lambda t: ["/* %s" % t, "*/"], "b3": lambda t: ["/*", " %s" % t, "*/"],
@@ -157,6 +158,8 @@ def features(case):
             line = script_lines(case["script"])[pos]
             if "'" in line:
                 f.append("trail:after-line-with-literal")
+                if "'" in t and st.startswith("t--"):
+                    f.append("trail-dashdash-after-literal:apostrophe-in-text")
     # two trailing comments on one line: what follows the first '--' is the text of that '--' comment
     tr = {}
     for kind, st, ti, pos in case["ins"]:
@@ -192,7 +195,8 @@ def evaluate(case):
             if len(ent) < len(entities(b[1])):
                 sym = "entity-lost"
             diffs.append(vdiff("entities", sym, entities(b[1]), ent))
-        nrm = lambda x: re.sub(r"\s+", "", MARK.sub("", x))  # noqa
+        # (comment text is compared modulo blanks, comment markers and the escaped line breaks the scanner leaves inside merged lines)
+        nrm = lambda x: re.sub(r"\s+", "", MARK.sub("", x.replace("\\n", " ").replace("\\t", " ")))  # noqa
         ins = [nrm(x) for x in inserted]
         k = 0
         for c in com:
